@@ -576,6 +576,18 @@ pub fn c19_check_value(li: &LanguageIdentifier) -> Vec<Fail> {
     out
 }
 
+/// Non-string JSON documents that *spell* a well-formed identifier some other way: its bytes as an array of
+/// numbers, its characters as an array of one-character strings, wrapped in a one-element array / object.
+pub fn spelled_non_strings(s: &str) -> Vec<String> {
+    vec![
+        format!("[{}]", s.bytes().map(|b| b.to_string()).collect::<Vec<_>>().join(",")),
+        format!("[{}]", s.chars().map(|c| json_quote(&c.to_string())).collect::<Vec<_>>().join(",")),
+        format!("[{}]", json_quote(s)),
+        format!("{{{}:null}}", json_quote(s)),
+        format!("{{\"id\":{}}}", json_quote(s)),
+    ]
+}
+
 const NON_STRINGS: &[&str] = &[
     "null", "true", "false", "0", "1", "-1", "1.5", "1e300", "[]", "[\"en\"]", "{}", "{\"en\":\"US\"}", "[[\"en\"]]", "{\"a\":{\"b\":[1,2,{\"c\":null}]}}",
     "18446744073709551616", "[null]", "{\"language\":\"en\"}",
@@ -665,6 +677,16 @@ pub fn run_c19(ctx: &mut Ctx) {
         ctx.judge_bytes(b, &mut |c| c19_check_str(c));
         let ok = mon::take_outcome() & 3 == 1;
         ctx.count(if ok { "string:parses" } else { "string:rejected" });
+        if ok && ctx.get_count("string:parses") % 16 == 1 {
+            for js in spelled_non_strings(s) {
+                ctx.count("non-string-json spelling an accepted identifier");
+                for f in c19_check_nonstring(&js) {
+                    ctx.viol_total += 1;
+                    ctx.count_dyn(&format!("violation:{}", f.clause));
+                    ctx.add_violation(&f.clause, json!({"json": js}), json!(null), f.detail);
+                }
+            }
+        }
         if crate::refspec::n_subtags(b) >= 2 {
             ctx.sig(crate::refspec::class_seq_hash(19, b, ok as u64));
         }
